@@ -221,6 +221,7 @@ pub fn hash(r: &mut Rng, n: u64, x: &mut Exec, sink: &mut Sink, which: &str) {
         sink.run(x, &json!({"op":"buf","slot":"h","bytes":bytes_val(&tb)}));
         sink.run(x, &json!({"op":"buf","slot":"sy","bytes":bytes_val(&symtab)}));
         sink.run(x, &json!({"op":"buf","slot":"st","bytes":bytes_val(&strtab)}));
+        sink.run(x, &json!({"op":"hash_wf","kind":which,"class":class,"es":es,"hashslot":"h","symslot":"sy","strslot":"st","wf":wf}));
         let mut qs: Vec<Vec<u8>> = Vec::new();
         for (i, nm) in names.iter().enumerate() { if i > 0 && (names.len() < 14 || r.chance(1, 4)) { qs.push(nm.clone()); } }
         qs.extend(absent);
